@@ -53,16 +53,20 @@ PrefixSumsR(s, buffer, j, acc) ==
 PrefixSums(s, buffer) == PrefixSumsR(s, buffer, 1, << >>)
 NotesSumD(ps, k) == IF k = 0 THEN Zero ELSE ps[k]
 
-\* the reconcile loop driven by the logged answers: result [k, n, used, honest]; k = -1 when the log
-\* holds fewer answers than the rule needs
+\* Oracle answers are logged as DecNats (counts up to usize::MAX occur), None as << -1 >>.
+NoAnswer == << -1 >>
+
+\* the reconcile loop driven by the logged answers: result [k, n, used, honest] with n a DecNat;
+\* k = -1 when the log holds fewer answers than the rule needs.  An answer fits iff
+\* notes + n * fee <= balance, in exact arithmetic (a count whose fees exceed every u64 never fits).
 RECURSIVE ReconcileD(_, _, _, _, _, _, _)
 ReconcileD(ps, k, i, answers, total, fee, assumedZero) ==
-    IF k = 0 THEN [k |-> 0, n |-> 0, used |-> i - 1, honest |-> TRUE]
-    ELSE IF i > Len(answers) THEN [k |-> -1, n |-> 0, used |-> i - 1, honest |-> FALSE]
+    IF k = 0 THEN [k |-> 0, n |-> Zero, used |-> i - 1, honest |-> TRUE]
+    ELSE IF i > Len(answers) THEN [k |-> -1, n |-> Zero, used |-> i - 1, honest |-> FALSE]
     ELSE LET a == answers[i]
-             h == (a = (IF assumedZero THEN 0 ELSE Txs(k)))
-         IN  IF a >= 0 /\ Leq(Add(NotesSumD(ps, k), MulSmall(fee, a)), total)
-             THEN [k |-> k, n |-> a, used |-> i, honest |-> h]
+             h == a # NoAnswer /\ Eq(a, FromInt(IF assumedZero THEN 0 ELSE Txs(k)))
+         IN  IF a # NoAnswer /\ Leq(Add(NotesSumD(ps, k), Mul(fee, a)), total)
+             THEN [k |-> k, n |-> Norm(a), used |-> i, honest |-> h]
              ELSE LET r == ReconcileD(ps, k - 1, i + 1, answers, total, fee, assumedZero)
                   IN  [r EXCEPT !.honest = FALSE]
 
@@ -85,7 +89,7 @@ PlanAllowed(r) ==
         want   == [j \in 1..Len(split) |-> Add(split[j], buffer)]       \* the prepared notes of the split
         rc     == ReconcileD(ps, Len(split), 1, r.answers, total, fee, exact)
         notes  == NotesSumD(ps, rc.k)
-        fees   == MulSmall(fee, rc.n)
+        fees   == Mul(fee, rc.n)
         change == Sub(total, Add(notes, fees))
     IN  /\ r.outcome = "ok"
         \* the oracle was consulted exactly as the rule says, each time about a prefix of the split
